@@ -180,6 +180,44 @@ def check_isolation(run, case, front, order):
     return True
 
 
+def fine_isolation(run, r, uniq, n, prop='C17'):
+    """sync TCP handler threads pre-empted at every source line of the framers / handlers / decoder / datastore (seeded random
+    runs): 2..3 connections with disjoint address ranges must each produce exactly the bytes they produce alone"""
+    for k in range(n):
+        framing = ('tcp', 'tcp', 'ascii', 'rtu')[k % 4]
+        case = isolation_case(r, framing, uniq, 2 + (k % 3 == 2))
+        # whole frames only (one per read): what is under test is the interleaving of the handlers, not chunking
+        seed = r.getrandbits(32)
+        fine_one(run, case, framing, seed)
+
+
+def fine_one(run, case, framing, seed):
+    if True:
+        repo.reset_globals()
+        layout, conns = case['layout'], case['conns']
+        solo = []
+        for chunks in conns:
+            ctx, model, blocks = SM.build(layout)
+            solo.append(FE.feed('sync-tcp', framing, ctx, list(chunks)).out)
+        ctx, model, blocks = SM.build(layout)
+        results = FE.feed_multi('sync-tcp', framing, ctx, conns, [], fine_seed=seed)
+        run.count('fine_grained_runs')
+        if any(res.stuck for res in results):
+            run.watchdogs += 1
+            return
+        bad = []
+        for i, res in enumerate(results):
+            if res.out != solo[i]:
+                bad.append('connection %d alone produces %s, under line-level interleaving (seed %d) %s' % (i, solo[i].hex()[:80], seed, res.out.hex()[:80]))
+            if res.escaped:
+                bad.append('connection %d: exception %r' % (i, res.escaped[:1]))
+        run.case(h64(('fine', framing, repr(conns), seed)), True,
+                 sample={'kind': 'line-level interleaving', 'front': 'sync-tcp', 'framing': framing, 'connections': len(conns), 'seed': seed,
+                         'verdict': 'each connection as when alone' if not bad else 'differs'}, sample_class=('fine', framing))
+        if bad:
+            run.violation('fine-isolation:sync-tcp/%s' % framing, dict(case, front='sync-tcp', fine_seed=seed), '; '.join(bad)[:900])
+
+
 def orders(lens, r, limit):
     """interleavings of the chunk sequences: all of them when few, sampled otherwise"""
     total = sum(lens)
@@ -249,6 +287,9 @@ def run(run):
                                  sample={'kind': 'isolation', 'front': front, 'framing': framing, 'connections': nconn, 'chunks_per_connection': lens, 'order': order[:16],
                                          'verdict': 'each connection as when alone' if ok else 'differs'},
                                  sample_class=('iso', front, framing))
+    if run.shard in (None, 0):
+        fine_isolation(run, r, uniq, run.scale(40, 1500))
+        run.floor('line-level interleaving runs', run.counters.get('fine_grained_runs', 0), 20)
     run.floor('pairwise front-end comparisons', run.counters.get('pairwise_comparisons', 0), 1500 if run.shard is None else 80)
     run.floor('interleavings per stream front-end (min)', min(run.counters.get('isolation_cases:%s' % f, 0) for f in STREAM_FRONTS), 100 if run.shard is None else 5)
     run.floor('clean-region differential cases', run.counters.get('clean_region_cases', 0), 200 if run.shard is None else 10)
@@ -257,7 +298,9 @@ def run(run):
 
 def replay(run, case):
     case['layout']['units'] = {int(k): v for k, v in case['layout']['units'].items()}
-    if 'conns' in case:
+    if 'fine_seed' in case:
+        fine_one(run, case, case['framing'], case['fine_seed'])
+    elif 'conns' in case:
         print(check_isolation(run, case, case['front'], case['order']))
     else:
         fronts = DGRAM_FRONTS if case.get('front') in DGRAM_FRONTS else STREAM_FRONTS
